@@ -109,3 +109,34 @@ def spawn_chain_programs(L, macros):
                 pid = "%s/%s/%s" % (mac, K.short(start), "-".join(labels) or "id")
                 progs.append(Prog(pid, rb, mb, rows2, "Proj", meta={"macro": mac, "dsl": mb.split(";\n")[0][8:], "ref": refx}))
     return progs
+
+
+ASYNC_HEADER = "use futures::future::ready;\nuse futures::stream::iter;\n"
+
+
+def async_chain_programs(L, stats=None):
+    """every async typed chain whose final kind is a future (a step is awaited), in join_async! / try_join_async!"""
+    progs = []
+    stats = stats if stats is not None else new_stats()
+    for start, init, rows in K.ASYNC_STARTS:
+        for chain in K.enum_chains(K.async_rows, start, L):
+            fk = K.final_kind(start, chain)
+            if fk[0] != "Fut" or fk[1][0] == "Fut":
+                continue
+            dsl, ref = chain_texts(init, chain, is_async=True)
+            labels = [r.label for r in chain]
+            k = start
+            stats["kinds"].add(k)
+            for r in chain:
+                stats["rows"].add((K.short(k), r.label))
+                k = r.out
+                stats["kinds"].add(k)
+            for a, b in zip(chain, chain[1:]):
+                stats["pairs"].add((a.op, b.op))
+            rb = "let x = futures::executor::block_on(async move { use futures::{FutureExt, TryFutureExt, StreamExt, TryStreamExt}; %s.await });\nformat!(\"{:?}\", x)" % ref
+            for mac in ("join_async", "try_join_async"):
+                if mac.startswith("try") and fk[1][0] != "Res":
+                    continue
+                mb = "let x = futures::executor::block_on(%s! { %s });\nformat!(\"{:?}\", x)" % (mac, dsl)
+                progs.append(Prog("%s/%s/%s" % (mac, K.short(start), "-".join(labels) or "id"), rb, mb, rows, "Full", meta={"macro": mac, "dsl": "%s! { %s }" % (mac, dsl), "ref": ref}))
+    return progs, stats
